@@ -205,7 +205,11 @@ def run(ctx: Ctx):
         "encode cases: every single-item length 0..N plus multi-item lists over boundary lengths; decode cases: "
         "garbage, well-formed records, cut/extended records. A case is non-trivial if it fragments (a value > 255 "
         "bytes), merges (a repeated type), or reaches the decoder's error/truncation branch; distinct by input bytes. "
-        "A bounded subset is repeated with the pyhap / pyhap.tlv logger at DEBUG (results must not depend on logging)."
+        "A bounded subset is repeated with the pyhap / pyhap.tlv logger at DEBUG (results must not depend on logging). "
+        "Histories: on a freshly loaded codec, refused calls (odd argument count, non-bytes value or tag after a good item, "
+        "undecodable input) interleaved with well-formed encodes / decodes; every well-formed call must give the TLV8 result "
+        "of its own arguments whatever came before (always non-trivial). Scale: single values of 64 KiB .. 1 MiB (3 MB thorough), "
+        "reference codec only."
     )
     enc_cases = gen_encode_cases(ctx)
     dec_cases = gen_decode_cases(ctx)
@@ -252,6 +256,8 @@ def run(ctx: Ctx):
                     oracle_decode(ctx, d, impl_decode(tlv, d))
                     st.hit("op", "decode@" + cfg)
     run_camera_usage(ctx)
+    run_histories(ctx)
+    run_scale(ctx, tlv)
     model = run_model_parallel("C07", lines)
     for ln, m, i in zip(lines, model, impl):
         st.traces_validated += 1
@@ -400,6 +406,153 @@ def run_camera_usage(ctx: Ctx):
         st.hit("op", "camera:session-order")
 
 
+# ------------------------------------------------------------------ histories: the codec is a function of its arguments
+
+# calls that the codec refuses (or may refuse); what they return or raise is not judged, what FOLLOWS them is
+BAD_CALLS = {
+    "encode-odd-args": lambda tlv: tlv.encode(b"\x01"),
+    "encode-str-value-after-item": lambda tlv: tlv.encode(b"\x01", b"11:22:33:44:55:66", b"\x02", "text"),
+    "encode-none-value-after-item": lambda tlv: tlv.encode(b"\x06", b"\x02", b"\x03", None),
+    "encode-int-value": lambda tlv: tlv.encode(b"\x01", 5),
+    "encode-str-tag-after-long-item": lambda tlv: tlv.encode(b"\x03", bytes(range(256)) * 3, "t", b"x"),
+    "encode-none-after-multiple-of-255": lambda tlv: tlv.encode(b"\x05", b"\xaa" * 510, b"\x02", None),
+    "decode-lone-byte": lambda tlv: tlv.decode(b"\x01"),
+    "decode-none": lambda tlv: tlv.decode(None),
+    "decode-bad-base64": lambda tlv: tlv.decode("@@@", from_base64=True),
+    "decode-truncated-after-item": lambda tlv: tlv.decode(b"\x01\x02\xaa\xbb\x02"),
+}
+
+
+def exec_history(ops):
+    """Runs a history on a freshly loaded codec; returns the result of every op (refused calls: the exception class)."""
+    tlv = _tlv()
+    out = []
+    for op in ops:
+        if "bad" in op:
+            try:
+                with time_limit(3):
+                    BAD_CALLS[op["bad"]](tlv)
+                out.append("returned")
+            except Timeout:
+                out.append("DOES-NOT-TERMINATE")
+            except Exception as ex:  # noqa: BLE001
+                out.append(type(ex).__name__)
+        elif "encode" in op:
+            items = [(t, bytes.fromhex(v)) for t, v in op["encode"]]
+            try:
+                out.append({"ok": hx(impl_encode(tlv, items))})
+            except Exception as ex:  # noqa: BLE001
+                out.append({"err": type(ex).__name__})
+        else:
+            out.append(impl_decode(tlv, bytes.fromhex(op["decode"])))
+    return out
+
+
+def judge_history(ctx: Ctx, ops, results):
+    """Every well-formed call inside a history must give what the reference codec gives for its arguments alone."""
+    for k, (op, got) in enumerate(zip(ops, results)):
+        want = None
+        if "encode" in op:
+            items = [(t, bytes.fromhex(v)) for t, v in op["encode"]]
+            want = {"ok": hx(ref.encode(items))}
+        elif "decode" in op:
+            try:
+                recs = ref.records(bytes.fromhex(op["decode"]))
+            except ValueError:
+                continue
+            want = {"ok": [[t, hx(v)] for t, v in ref.merge_dict(recs).items()]}
+        if want is not None and got != want:
+            earlier = [o.get("bad") or ("encode" if "encode" in o else "decode") for o in ops[:k]]
+            ctx.fail(
+                "C07:result-depends-on-earlier-calls",
+                f"call {k} of a history ({'encode' if 'encode' in op else 'decode'} of a well-formed argument) does not give the "
+                f"TLV8 result of its arguments after the earlier calls {earlier}: got {_short(got)}",
+                _rep({"kind": "history", "ops": ops[: k + 1]}),
+                size=k,
+            )
+            return False
+    return True
+
+
+def run_histories(ctx: Ctx):
+    rng = ctx.rng
+    st = ctx.stats
+    lines, impl = [], []
+    goods = [[(6, b"\x02"), (7, b"\x06")], [(1, _val(rng, 300))], [(5, _val(rng, 510)), (5, b"\x01")], [(3, b"")]]
+    hists = []
+    for name in BAD_CALLS:
+        ops = [{"bad": name}]
+        for it in goods:
+            ops.append({"encode": [[t, hx(v)] for t, v in it]})
+        ops.append({"decode": hx(ref.encode(goods[2]))})
+        ops.append({"decode": "060102070106"})
+        hists.append(ops)
+    names = list(BAD_CALLS)
+    for _ in range(ctx.n(20, 300)):
+        ops = []
+        for _ in range(rng.randrange(2, 9)):
+            r = rng.random()
+            if r < 0.35:
+                ops.append({"bad": rng.choice(names)})
+            elif r < 0.75:
+                it = [(rng.choice([1, 2, 3, 5, 6]), _val(rng, rng.choice([0, 1, 17, 255, 256, 510, 700]))) for _ in range(rng.randrange(1, 4))]
+                ops.append({"encode": [[t, hx(v)] for t, v in it]})
+            else:
+                it = [(rng.choice([1, 2, 3]), _val(rng, rng.choice([0, 1, 17, 255, 300]))) for _ in range(rng.randrange(1, 3))]
+                ops.append({"decode": hx(ref.encode(it))})
+        if any("bad" in o for o in ops[:-1]):
+            hists.append(ops)
+    for ops in hists:
+        res = exec_history(ops)
+        judge_history(ctx, ops, res)
+        st.case(["h", [o.get("bad") or (("e", o["encode"]) if "encode" in o else ("d", o["decode"])) for o in ops]], True)
+        st.hit("op", "history")
+        for o, r in zip(ops, res):
+            if "bad" in o:
+                st.hit("outcome", f"history:{o['bad']}->{r}")
+            elif "encode" in o:
+                lines.append({"layer": "tlv", "op": "encode", "items": o["encode"]})
+                impl.append(r)
+            else:
+                lines.append({"layer": "tlv", "op": "decode", "data": o["decode"]})
+                impl.append(r)
+    # tie: the model is a function of the arguments; every well-formed call inside a history must agree with it
+    model = run_model_parallel("C07", lines)
+    for ln, m, i in zip(lines, model, impl):
+        st.traces_validated += 1
+        if m != i:
+            ctx.disagree("tlv-history", {k: (_short(v) if isinstance(v, str) else v) for k, v in ln.items()}, _short(m), _short(i))
+    st.sample({"history": [o.get("bad") or ("encode" if "encode" in o else "decode") for o in hists[1]], "results": [_short(r) for r in exec_history(hists[1])]})
+
+
+def run_scale(ctx: Ctx, tlv):
+    """Value lengths far beyond anything a pairing message carries (the property quantifies over every value length):
+    judged by the reference codec only; the two 64 KiB cases also go to the model."""
+    st = ctx.stats
+    rng = ctx.rng
+    big = [65535, 65536, 254999, 255000, 262144 + 17, 1048576 + 1]
+    if not ctx.quick:
+        big += [rng.randrange(70000, 3000000) for _ in range(6)]
+    for n in big:
+        it = [(rng.choice([1, 5, 9]), _val(rng, n)), (2, b"\x01")]
+        try:
+            enc = impl_encode(tlv, it)
+        except BaseException as ex:  # noqa: BLE001  (RecursionError, MemoryError: still an answer the property forbids)
+            if isinstance(ex, (KeyboardInterrupt, SystemExit, Timeout)):
+                raise
+            ctx.fail(
+                "C07:encode-raises-on-wellformed-items",
+                f"tlv.encode of value lengths {[len(v) for _, v in it]} raises {type(ex).__name__} instead of returning the TLV8 byte string",
+                _rep({"kind": "encode-scale", "lengths": [len(v) for _, v in it], "tags": [t for t, _ in it], "start": it[0][1][0] if it[0][1] else 0}),
+                size=n,
+            )
+            st.hit("outcome", "scale-raises")
+            continue
+        oracle_encode(ctx, tlv, it, enc)
+        st.case(["scale", n], True)
+        st.hit("op", "encode-scale")
+
+
 def _short(x):
     s = str(x)
     return s if len(s) < 160 else s[:160] + f"...<{len(s)} chars>"
@@ -415,6 +568,7 @@ def search(ctx: Ctx):
     saved = ctx.tier
     ctx.tier = "thorough"
     try:
+        run_histories(ctx)
         for it in gen_encode_cases(ctx)[2100:]:
             oracle_encode(ctx, tlv, it, impl_encode(tlv, it))
         for d in gen_decode_cases(ctx):
@@ -440,7 +594,21 @@ def replay(ctx: Ctx, r):
     with logging_cfg(r.get("logging")):
         if r.get("logging"):
             print("logging configuration:", r["logging"])
-        if r["kind"] == "encode":
+        if r["kind"] == "encode-scale":
+            items = [(t, bytes((r["start"] + i * 7) & 0xFF for i in range(n))) for t, n in zip(r["tags"], r["lengths"])]
+            try:
+                enc = impl_encode(tlv, items)
+                oracle_encode(ctx, tlv, items, enc)
+                print("encode lengths", r["lengths"], "->", len(enc), "bytes")
+            except Exception as ex:  # noqa: BLE001
+                print("encode lengths", r["lengths"], "raises", type(ex).__name__)
+                ctx.fail("C07:encode-raises-on-wellformed-items", f"raises {type(ex).__name__}", r)
+        elif r["kind"] == "history":
+            res = exec_history(r["ops"])
+            for o, x in zip(r["ops"], res):
+                print(" ", o.get("bad") or ("encode" if "encode" in o else "decode"), "->", _short(x))
+            judge_history(ctx, r["ops"], res)
+        elif r["kind"] == "encode":
             items = [(t, bytes.fromhex(v)) for t, v in r["items"]]
             enc = impl_encode(tlv, items)
             oracle_encode(ctx, tlv, items, enc)
